@@ -46,8 +46,13 @@
 (*              out; the root lock is what matters)                         *)
 (*   "intro"    Introspect of the node (reads every interface; no user     *)
 (*              code)                                                      *)
-(* Properties / Introspectable are separate interfaces that always spawn;  *)
-(* only "meth"/"methmut" are subject to X's spawn flag.                    *)
+(*   "ping"     org.freedesktop.DBus.Peer.Ping at the same path: its own   *)
+(*              always-spawning interface whose lock nobody else takes, no *)
+(*              user code -- after the dispatcher's lookup (which needs    *)
+(*              the root read lock like every call) nothing can delay the  *)
+(*              reply, whatever X's handlers hold                          *)
+(* Properties / Introspectable / Peer are separate interfaces that always  *)
+(* spawn; only "meth"/"methmut"/"methnr" are subject to X's spawn flag.    *)
 (* A handler body is a sequence over "y" (yield point), "e" (emit a        *)
 (* signal), "w" (object_server().at / remove: root write lock).            *)
 (***************************************************************************)
@@ -55,7 +60,7 @@ EXTENDS Naturals, Sequences, FiniteSets, TLC
 
 CONSTANT DEVS
 AllDevs == {"props_hold_root", "intro_holds_root", "lazy_subscribe"}
-Kinds   == {"meth", "methmut", "methnr", "get", "set", "getall", "intro"}
+Kinds   == {"meth", "methmut", "methnr", "get", "set", "getall", "intro", "ping"}
 UserKinds == {"meth", "methmut", "methnr"}  \* dispatched to X itself (subject to X's spawn flag)
 NoReply(kd) == kd = "methnr"
 
@@ -149,7 +154,7 @@ DispInit ==   \* first run of the dispatcher task: creates its stream (reachable
   /\ os' = "subscribed"
   /\ UNCHANGED <<cfg, sent, inbound, queue, lost, disp, pc, pos, root, ifl>>
 
-FirstPc(k) == IF Kind(k) \in UserKinds THEN "ifR" ELSE "rootR"
+FirstPc(k) == IF Kind(k) \in UserKinds THEN "ifR" ELSE IF Kind(k) = "ping" THEN "ended" ELSE "rootR"
 
 \* take the next call, look the interface up under the root read lock (taken and released here:
 \* dispatch_method_call_try), then run it inline or spawn a task for it
